@@ -317,6 +317,9 @@ func c04Programs(tier string) []*Spec {
 }
 
 func c04Tags(sp *Spec) []string {
+	if sp.Delay && sp.Pop {
+		return []string{"pop+render-delay"}
+	}
 	if !sp.Pty {
 		return nil
 	}
@@ -406,7 +409,7 @@ func c18Programs(tier string) []*Spec {
 	// that pops it
 	for _, rf := range []string{"manual"} {
 		for _, k := range []int{1, 2, 3} {
-			for _, how := range []string{"setprio", "prio"} {
+			for _, how := range []string{"setprio", "prio", "priolazy"} {
 				sp := &Spec{Name: fmt.Sprintf("c18-prio-window-%s-after%d", how, k), Refresh: rf, Q: -1, Pop: true}
 				sp.Bars = []BarSpec{{Total: 1}, {Total: 9}, {Total: 9}}
 				sp.Main = []Op{{K: "add", B: 0}, {K: "add", B: 1}, {K: "add", B: 2}}
@@ -414,7 +417,11 @@ func c18Programs(tier string) []*Spec {
 				for i := 0; i < k; i++ {
 					ops = append(ops, Op{K: "refresh"})
 				}
-				ops = append(ops, Op{K: how, B: 0, N: 7}, Op{K: "refresh"}, Op{K: "refresh"}, Op{K: "refresh"}, Op{K: "incr", B: 1, N: 9}, Op{K: "incr", B: 2, N: 9}, Op{K: "refresh"}, Op{K: "refresh"}, Op{K: "refresh"}, Op{K: "refresh"})
+				chg := Op{K: how, B: 0, N: 7}
+				if how == "priolazy" {
+					chg = Op{K: "prio", B: 0, N: 7, F: true}
+				}
+				ops = append(ops, chg, Op{K: "refresh"}, Op{K: "refresh"}, Op{K: "refresh"}, Op{K: "incr", B: 1, N: 9}, Op{K: "incr", B: 2, N: 9}, Op{K: "refresh"}, Op{K: "refresh"}, Op{K: "refresh"}, Op{K: "refresh"})
 				sp.Clients = [][]Op{ops}
 				out = append(out, sp)
 			}
@@ -437,6 +444,20 @@ func c18Programs(tier string) []*Spec {
 		ops = append(ops, Op{K: "incr", B: 0, N: 9})
 		if rf == "manual" {
 			ops = append(ops, Op{K: "refresh"}, Op{K: "refresh"}, Op{K: "refresh"}, Op{K: "refresh"})
+		}
+		sp.Clients = [][]Op{ops}
+		out = append(out, sp)
+	}
+	// a render delay that ends after a bar has finished
+	for _, rf := range []string{"manual", "auto"} {
+		sp := &Spec{Name: "c18-finished-during-render-delay", Refresh: rf, Q: -1, Pop: true, Delay: true}
+		sp.Bars = []BarSpec{{Total: 1}, {Total: 9}}
+		sp.Main = []Op{{K: "add", B: 0}, {K: "add", B: 1}}
+		ops := []Op{{K: "incr", B: 0, N: 1}}
+		if rf == "manual" {
+			ops = append(ops, Op{K: "refresh"}, Op{K: "refresh"}, Op{K: "refresh"}, Op{K: "refresh"}, Op{K: "undelay"}, Op{K: "refresh"}, Op{K: "refresh"}, Op{K: "refresh"}, Op{K: "incr", B: 1, N: 9}, Op{K: "refresh"}, Op{K: "refresh"}, Op{K: "refresh"}, Op{K: "refresh"})
+		} else {
+			ops = append(ops, Op{K: "sleep", N: 450}, Op{K: "undelay"}, Op{K: "sleep", N: 350}, Op{K: "incr", B: 1, N: 9})
 		}
 		sp.Clients = [][]Op{ops}
 		out = append(out, sp)
